@@ -5,7 +5,9 @@ EXTENDS Aggregator, AggAlphabet
 \* block and ordinary commands; every program sits inside a cpp_class (prefix)
 Cmds == <<
   C("function", <<"@">>),
+  C("function", <<"dup", "a">>), C("function", <<"dup", "b", "_p_a">>),     \* the same name defined twice, differently
   C("function", <<"_p_@", "_p_a", "b">>),
+  C("function", <<"@", "\"_p_q\"", "_p_a">>),     \* a quoted parameter: the pattern ^_p_ does not apply to it as written
   Trig(C("macro", <<"@", "_p_a">>)),
   C("macro", <<"@">>),
   C("endfunction", <<>>), C("endmacro", <<>>),
@@ -15,7 +17,7 @@ Cmds == <<
   C("other", <<"hi">>),
   C("cpp_class", <<"C">>)
 >>
-Pre == <<[ci |-> 11, d |-> FALSE]>>
+Pre == <<[ci |-> CHOOSE j \in 1..Len(Cmds) : Cmds[j].k = "cpp_class", d |-> FALSE]>>
 MCPats == [f |-> TRUE, m |-> TRUE, x |-> TRUE]
 ASSUME PrintT(<<"PATS", ToJson(MCPats)>>)
 NoDev == {}
